@@ -1,6 +1,8 @@
 (* C06 - driver glue for the forwarding model (Model/Forward.v) and the property checker.
    case: (fwd stream alg node accepted-dump accepted-primary-bytes (round ...))
-   round: (kind now_lo now_hi res_lo res_hi (send ...) knows-after peer-up)
+   round: (kind now_lo now_hi res_lo res_hi (send ...) knows-after peer-up constraints allowed known-before)
+          kind = recv | retry | clean | dup (the same bundle handed in again; res_lo/res_hi of every
+          round count from the FIRST reception of the copy that is stored)
    send:  (sent dump valid primary-bytes ok trailing) | (unparsable ok) *)
 open Model
 open Conv
@@ -10,7 +12,7 @@ module DB = D_bundle
 
 type sent = { s_b : bundle; s_dump : string; s_valid : bool; s_pri : string; s_trail : int }
 type send = Sent of sent | Unparsable
-type round = { kind : string; now_lo : n; now_hi : n; res_lo : n; res_hi : n; sends : send list; knows : bool; peer_up : bool; cons : string list; allowed : bool }
+type round = { kind : string; now_lo : n; now_hi : n; res_lo : n; res_hi : n; sends : send list; knows : bool; peer_up : bool; cons : string list; allowed : bool; known_before : bool }
 
 let send_of_s s = match lst s with
   | [Atom "sent"; d; valid; pri; _ok; trail] ->
@@ -19,8 +21,8 @@ let send_of_s s = match lst s with
   | _ -> raise (Bad "send")
 
 let round_of_s s = match lst s with
-  | [k; nl; nh; rl; rh; ss; kn; pu; cs; al] ->
-    { kind = atom k; now_lo = s_n nl; now_hi = s_n nh; res_lo = s_n rl; res_hi = s_n rh;
+  | [k; nl; nh; rl; rh; ss; kn; pu; cs; al; kb] ->
+    { known_before = s_bool kb; kind = atom k; now_lo = s_n nl; now_hi = s_n nh; res_lo = s_n rl; res_hi = s_n rh;
       sends = List.map send_of_s (lst ss); knows = s_bool kn; peer_up = s_bool pu; cons = List.map atom (lst cs); allowed = s_bool al }
   | _ -> raise (Bad "round")
 
@@ -150,8 +152,26 @@ let fwd = function
     tag (if accepted then "accepted" else "not-accepted");
     let run rd now res copies =
       fw_touch_result copies (if rd.kind = "recv" then fw_receive node now res acc else fw_retry node now res acc) in
+    (* the same bundle handed in again: the timed model (fw_tstep) says whether it is a duplicate of
+       the stored copy (ignored: state unchanged, nothing transmitted) or a new reception *)
+    let dup_is_ignored rd =
+      let st = if !stored then Some { ti_b = acc; ti_rx = N0 } else None in
+      match fw_tstep node st (FwTRecv (acc, rd.res_lo, N0, rd.now_lo, None, true)) with
+      | (Some it, []) when st = Some it -> true
+      | _ -> false in
+    let after_dup = ref false in
     List.iter (fun rd ->
         if !undecided then ()
+        else if rd.kind = "dup" && dup_is_ignored rd then begin
+          tag "dup-ignored"; after_dup := true;
+          if not rd.known_before then mm "duplicate: model has the bundle stored, implementation did not know it";
+          if not rd.knows then mm "duplicate of a stored bundle: model keeps the item, implementation dropped it";
+          (* whatever is transmitted on this occasion is judged like any other transmission *)
+          List.iter (function
+              | Sent s -> check_send r ~alg ~node ~acc ~acc_pri ~rd:{ rd with kind = "retry" } s
+              | Unparsable -> pf r "forward.sent.invalid" "transmitted bytes do not parse") rd.sends;
+          if rd.sends <> [] then mm "duplicate of a stored bundle: the model transmits nothing, the implementation transmitted the bundle"
+        end
         else if rd.kind = "clean" then begin
           if !stored then begin
             let e_lo = acc.b_pri.p_time <> N0 && fw_store_expired rd.now_lo acc
@@ -167,8 +187,14 @@ let fwd = function
               pf r "forward.refused.still-stored" "expired bundle still stored after clean_store"
           end else if rd.knows then mm "clean: model has no item, implementation still knows the bundle"
         end else begin
+          let rd = if rd.kind = "dup" then begin
+              (* the bundle had left the store: a new reception of the same bytes *)
+              tag "dup-new-reception"; after_dup := false; nretry := 0;
+              if rd.known_before then mm "re-reception: model has no item, implementation knew the bundle";
+              stored := true;
+              { rd with kind = "recv" } end else rd in
           if rd.kind = "retry" then incr nretry;
-          let pre = if rd.kind = "recv" then "recv" else if !nretry >= 3 then "retry3+" else "retry" in
+          let pre = if rd.kind = "recv" then "recv" else if !after_dup then "retry-after-dup" else if !nretry >= 3 then "retry3+" else "retry" in
           (* forward not entered: at the reception the item then carries neither forward-pending nor
              contraindicated; at a retry the algorithm was asked just before *)
           let deferred =
